@@ -165,7 +165,7 @@ impl Property for C03 {
         "C03"
     }
     fn rule(&self) -> String {
-        "Generated: (language, text, repeat, threshold) with text drawn from any::<String>(), \\PC*, whitespace-only, hyphen/apostrophe-only, a pool of hostile fragments (combining marks, non-Latin digits, ZWSP, BOM, NUL, ß, İ, ligatures, line separators), and the dirty sentence generator (vocabulary words glued, truncated, recased); repeat up to 2000 for long inputs; thresholds incl. NaN, ±inf, negative, subnormal. Every entry point (text2digits, replace_numbers_in_text, find_numbers, find_numbers_iter drained then polled twice, replace_numbers_in_stream on whitespace-split own tokens and on own tokens whose lowercase form is normalised (punctuation stripped, possibly empty), the lazy search over the text's tokens followed by usize::MAX ordinary tokens, exec_group on the words as they are and on the text split on single spaces, get_interpreter_for) is called under catch_unwind; text2digits must answer Err for texts without any alphanumeric character and never Ok(\"\"). Enumerated: every string of length <= 3 over a 9-character alphabet x 7 languages. Whole-run procedure: 29 very long inputs (400 000 / 2 000 000 repetitions of ordinary words, punctuation, hyphens, apostrophes, whitespace, conjunction/separator words; 8 000 / 40 000 repetitions of number words, decimals, ordinals; one-token hyphen chains and German/Italian/Dutch glued compounds of that length) are run through text2digits, replace_numbers_in_text, find_numbers and find_numbers_iter in a child process on a default 2 MiB thread stack; the child being killed (stack overflow, abort) or panicking is a violation attributed to the running input; exceeding the time cap is inconclusive. Non-trivial = distinct (lang,text) with no alphanumeric char, or a multi-byte char, or a hyphen/apostrophe at a token edge, or total length > 1000, or a non-finite threshold.".into()
+        "Generated: (language, text, repeat, threshold) with text drawn from any::<String>(), \\PC*, whitespace-only, hyphen/apostrophe-only, a pool of hostile fragments (combining marks, non-Latin digits, ZWSP, BOM, NUL, ß, İ, ligatures, line separators), and the dirty sentence generator (vocabulary words glued, truncated, recased); 1 in 17 texts has an exact byte length of 2^k-4 .. 2^k+1 (k = 4..10, 12, 16) reached by padding with characters whose lowercase / uppercase form is longer than they are (İ Ⱥ Ⱦ ß ŉ ﬁ ǰ), multi-byte letters, a combining mark, an emoji; repeat up to 2000 for long inputs; thresholds incl. NaN, ±inf, negative, subnormal. Every entry point (text2digits, replace_numbers_in_text, find_numbers, find_numbers_iter drained then polled twice, replace_numbers_in_stream on whitespace-split own tokens and on own tokens whose lowercase form is normalised (punctuation stripped, possibly empty), the lazy search over the text's tokens followed by usize::MAX ordinary tokens, exec_group on the words as they are and on the text split on single spaces, get_interpreter_for) is called under catch_unwind; text2digits must answer Err for texts without any alphanumeric character and never Ok(\"\"). Enumerated: every string of length <= 3 over a 9-character alphabet x 7 languages. Whole-run procedure: 29 very long inputs (400 000 / 2 000 000 repetitions of ordinary words, punctuation, hyphens, apostrophes, whitespace, conjunction/separator words; 8 000 / 40 000 repetitions of number words, decimals, ordinals; one-token hyphen chains and German/Italian/Dutch glued compounds of that length) are run through text2digits, replace_numbers_in_text, find_numbers and find_numbers_iter in a child process on a default 2 MiB thread stack; the child being killed (stack overflow, abort) or panicking is a violation attributed to the running input; exceeding the time cap is inconclusive. Non-trivial = distinct (lang,text) with no alphanumeric char, or a multi-byte char, or a hyphen/apostrophe at a token edge, or total length > 1000, or a non-finite threshold.".into()
     }
     fn assumptions(&self) -> Vec<String> {
         vec!["non-termination would show as the watchdog expiring (exit 2, inconclusive), not as a violation".into()]
@@ -179,6 +179,32 @@ impl Property for C03 {
             4 => sentence_strategy(Mode::Dirty, 10).prop_map(|(_, s)| s.render()),
             1 => sentence_strategy(Mode::Clean, 10).prop_map(|(_, s)| s.render()),
         ];
+        // texts of an exact byte length at / next to a power of two, padded with characters whose lowercase or
+        // uppercase form is longer than they are (İ Ⱥ Ⱦ ß ŉ ﬁ ǰ), multi-byte letters, a combining mark, an emoji
+        const PAD: [&str; 16] = ["a", " ", "İ", "Ⱥ", "Ⱦ", "ß", "ŉ", "ﬁ", "ǰ", "ǅ", "\u{301}", "é", "字", "😀", "x ", "-"];
+        let sized = (sentence_strategy(Mode::Dirty, 4).prop_map(|(_, s)| s.render()), 0usize..9, 0usize..6, proptest::collection::vec(0usize..PAD.len(), 1..12), any::<bool>()).prop_map(|(base, p, d, pads, front)| {
+            let target = [16usize, 32, 64, 128, 256, 512, 1024, 4096, 65536][p] + 1 - d;
+            let mut t: String = if base.len() <= target / 2 { base } else { String::new() };
+            let mut padding = String::new();
+            let mut i = 0;
+            while t.len() + padding.len() < target {
+                padding.push_str(PAD[pads[i % pads.len()]]);
+                i += 1;
+            }
+            while t.len() + padding.len() > target {
+                padding.pop();
+            }
+            while t.len() + padding.len() < target {
+                padding.push('a');
+            }
+            if front {
+                t = format!("{}{}", padding, t);
+            } else {
+                t.push_str(&padding);
+            }
+            t
+        });
+        let text = prop_oneof![16 => text, 1 => sized];
         let repeat = prop_oneof![60 => Just(1u32), 4 => 2u32..6, 1 => 100u32..2000];
         (lang_strategy(), text, repeat, threshold_strategy()).prop_map(|(lang, text, repeat, th_bits)| Case { lang, text, repeat, th_bits }).boxed()
     }
@@ -280,6 +306,8 @@ impl Property for C03 {
         obs.label_if(multibyte, "multi-byte");
         obs.label_if(edge, "hyphen/apostrophe-at-edge");
         obs.label_if(long, "long>1000B");
+        let pow = text.len().max(1).next_power_of_two();
+        obs.label_if(c.repeat == 1 && text.len() >= 12 && (pow - text.len() <= 4 || text.len() - pow / 2 <= 1), "byte-length-at-a-power-of-two(-4..+1)");
         obs.label_if(nonfinite, "non-finite-threshold");
         obs.label_if(n >= 4, "stream>=4-tokens");
         obs.label(&format!("lang-{}", c.lang));
